@@ -333,6 +333,17 @@ class Engine(object):
             return fresh(v)
         self.prims["is_fresh"] = GhostPrim("is_fresh", is_fresh)
 
+        def all_distinct_objects(ex, xs):
+            items = xs.items if isinstance(xs, PList) else list(xs)
+            return len(set(id(x) for x in items)) == len(items)
+        self.prims["all_distinct_objects"] = GhostPrim("all_distinct_objects", all_distinct_objects)
+
+        def list_same_objects(ex, a, b):
+            xa = a.items if isinstance(a, PList) else list(a)
+            xb = b.items if isinstance(b, PList) else list(b)
+            return len(xa) == len(xb) and all(x is y for x, y in zip(xa, xb))
+        self.prims["list_same_objects"] = GhostPrim("list_same_objects", list_same_objects)
+
         def module_value(ex, path):
             """the module-level object at a dotted path, in the state the path has reached (representation
             invariants of memo tables are stated over it)"""
@@ -843,7 +854,8 @@ class Engine(object):
             # event view of a callee (two-level argument): its precondition was just checked and its exceptions
             # branched on; what its own contract proves about the bytes it appends is not needed here, only THAT
             # it ran, with which arguments and in which order.  The fields it may change are havoced.
-            names = [p.arg for p in fref.node.args.args if p.arg != "self"]
+            with_recv = isinstance(evname, dict) and evname.get("with_receiver")
+            names = [p.arg for p in fref.node.args.args if p.arg != "self" or with_recv]
             ctx.__dict__.setdefault("trace", []).append((evname,) + tuple(env[n] for n in names))
             ctx.tags.add("event view: %s recorded as one ghost event (its byte-level contract is proved separately)"
                          % fq.split("mingus.")[-1])
